@@ -19,7 +19,12 @@ typedef struct S_class_rml__internal__MemoryPool pool_t;
 typedef unsigned __int128 u128;
 #define SLAB 16384
 u8 H[128] __attribute__((aligned(128)));   /* block header (LargeMemoryBlock) / slab header (Block) */
+#ifdef VP_NATIVE
+u8 WB[64] __attribute__((aligned(16)));    /* native replay: padding so that the one-past pointer W+16 cannot alias another harness object */
+#define W (WB + 16)
+#else
 u8 W[16] __attribute__((aligned(16)));     /* the 16 bytes in front of the user pointer */
+#endif
 #define PTR (W + 16)                        /* the user pointer: one past W in the real world, address P in the model */
 u64 BASE, P;
 u64 vpx_pthread_self(void) { return 1; }
